@@ -23,7 +23,9 @@ static slu_v_ledger_t led;
 static int poison_on = 1;
 static char f_sub[128]; static int f_line; static long f_k, f_seen; static int f_sticky, f_on;
 static __thread FILE *t_out;
+static __thread int t_in_expand;      /* between the ExpandBegin and Expand events of ?expand (growth request in progress) */
 static __thread long t_seq;
+#define MAX_EVENTS 4000   /* per scenario: a livelock in the library must not flood the trace */
 static int ev_mask = 0;
 static size_t quarantined;
 void (*slu_v_yield)(const char *where) = 0;
@@ -70,7 +72,7 @@ void *slu_vmalloc(size_t size, const char *file, int line)
 {
     if (slu_v_yield) slu_v_yield("malloc");
     pthread_mutex_lock(&mu);
-    if (f_on && (!f_sub[0] || (file && strstr(file, f_sub))) && (!f_line || f_line == line)) {
+    if (f_on && (!f_sub[0] || (f_sub[0] == '@' ? t_in_expand : (file && strstr(file, f_sub) != NULL))) && (!f_line || f_line == line)) {
         f_seen++;
         if (f_seen == f_k || (f_sticky && f_seen > f_k)) {
             led.failed_allocs++;
@@ -139,11 +141,46 @@ void slu_vhook(const char *event, const char *fmt, ...)
     if (!t_out) return;
     int bit = event[0] == 'M' ? 1 : event[0] == 'C' ? 2 : event[0] == 'P' ? 4 : event[0] == 'R' ? 8 : 0;
     if (bit && !(ev_mask & bit)) return;
+    if (t_seq >= MAX_EVENTS) { if (t_seq == MAX_EVENTS) { t_seq++; fputs("{\"e\":\"EventsTruncated\"}\n", t_out); } return; }
     char buf[4096]; int n = snprintf(buf, sizeof buf, "{\"e\":\"%s\",\"seq\":%ld", event + 2, ++t_seq);
     if (fmt && *fmt) {
         buf[n++] = ',';
         va_list ap; va_start(ap, fmt); n += vsnprintf(buf + n, sizeof buf - n - 3, fmt, ap); va_end(ap);
         if (n > (int)sizeof buf - 3) n = sizeof buf - 3;
+    }
+    buf[n++] = '}'; buf[n++] = '\n';
+    fwrite(buf, 1, n, t_out);
+}
+
+/* state printer for the memory / column hooks: standard fields of the allocator state */
+#include "slu_ddefs.h"
+void slu_vhook_mem(const char *event, const GlobalLU_t *Glu, const char *fmt, ...)
+{
+    if (slu_v_yield) slu_v_yield(event + 2);
+    if (event[0] == 'M') t_in_expand = strcmp(event, "M:ExpandBegin") == 0;
+    if (!t_out) return;
+    int bit = event[0] == 'M' ? 1 : event[0] == 'C' ? 2 : event[0] == 'P' ? 4 : event[0] == 'R' ? 8 : 0;
+    if (bit && !(ev_mask & bit)) return;
+    if (t_seq >= MAX_EVENTS) { if (t_seq == MAX_EVENTS) { t_seq++; fputs("{\"e\":\"EventsTruncated\"}\n", t_out); } return; }
+    char buf[4096]; int n = snprintf(buf, sizeof buf, "{\"e\":\"%s\",\"seq\":%ld,", event + 2, ++t_seq);
+    va_list ap; va_start(ap, fmt); n += vsnprintf(buf + n, sizeof buf - n - 600, fmt, ap); va_end(ap);
+    int user = Glu->MemModel == USER;
+    n += snprintf(buf + n, sizeof buf - n - 300, ",\"model\":%d,\"numexp\":%d,\"nz\":[%lld,%lld,%lld]", user, Glu->num_expansions,
+                  (long long)Glu->nzlumax, (long long)Glu->nzumax, (long long)Glu->nzlmax);
+    if (user)
+        n += snprintf(buf + n, sizeof buf - n - 200, ",\"st\":[%lld,%lld,%lld,%lld],\"al\":%d", (long long)Glu->stack.size, (long long)Glu->stack.used,
+                      (long long)Glu->stack.top1, (long long)Glu->stack.top2, (int)((size_t)Glu->stack.array & 7));
+    if (Glu->expanders) {
+        n += snprintf(buf + n, sizeof buf - n - 100, ",\"ex\":[");
+        for (int t = 0; t < 4; t++) {
+            long long off = Glu->expanders[t].mem ? (user ? (long long)((char *)Glu->expanders[t].mem - (char *)Glu->stack.array) : 1) : -1;
+            long long sz = (long long)Glu->expanders[t].size;
+            if (!user) off = Glu->expanders[t].mem != NULL;
+            /* before the first expansion the table is uninitialised: report a marker, not garbage */
+            if (off > (1LL << 30) || off < -(1LL << 30) || sz > (1LL << 30) || sz < 0) { off = -999999; sz = -999999; }
+            n += snprintf(buf + n, sizeof buf - n - 40, "%s[%lld,%lld]", t ? "," : "", off, sz);
+        }
+        n += snprintf(buf + n, sizeof buf - n - 10, "]");
     }
     buf[n++] = '}'; buf[n++] = '\n';
     fwrite(buf, 1, n, t_out);
